@@ -17,10 +17,14 @@ LABEL_RULES = [
 # after the corresponding "fix:" commit (the pre-fix behaviour stays reproducible with False).
 FIX_F8 = True
 FIX_F9 = False
+# O6 (not judged a defect so far, see Promise.tla / PromiseP.tla): a container awaiter may return the late result of a
+# promise that was replaced before it was resolved.  proposed-fix-3.diff is modelled behind FixO6 (VERIF_PROMISE_FIX=O6).
+FIX_O6 = False
 # for trying a proposed fix on a scratch copy (VERIF_REPO=...): VERIF_PROMISE_FIX=F8 | F9 | F8,F9
 _fx = os.environ.get("VERIF_PROMISE_FIX", "")
 FIX_F8 = FIX_F8 or "F8" in _fx
 FIX_F9 = FIX_F9 or "F9" in _fx
+FIX_O6 = FIX_O6 or "O6" in _fx
 
 SCEN = {"quick": ["pp_q1", "pc_q1", "pc_q2"],
         "thorough": ["pp_q1", "pc_q1", "pc_q2", "pp_t1", "pc_t1", "pc_t2", "pc_t3", "pc_t4"]}
@@ -34,7 +38,7 @@ def scen_path(n):
     return os.path.join(vlib.VERIF, "specs", "promise", "scenarios", n + ".json")
 
 
-def mk_factory(sc, f8, f9, strict=False):
+def mk_factory(sc, f8, f9, strict=False, o6=False):
     def mk(d, kind):
         # kinds: "mc" (coarse granularity, every interleaving of the wake-ups), "graph" (coarse, eager wake-ups:
         # the controller's steps, source of the schedules), "fine" (model check only: a replacement's return is
@@ -42,6 +46,7 @@ def mk_factory(sc, f8, f9, strict=False):
         # told and must hold as it stands, without the LateRace tolerance), "f8" (busy-loop property only)
         consts = ["Proms0 <- ScProms", "Cur0 = %d" % sc["cur"], "Prog <- ScProg",
                   "FixF8 = %s" % ("TRUE" if f8 else "FALSE"), "FixF9 = %s" % ("TRUE" if f9 else "FALSE"),
+                  "FixO6 = %s" % ("TRUE" if o6 else "FALSE"),
                   "EagerWake = %s" % ("TRUE" if kind == "graph" else "FALSE"),
                   "Fine = %s" % ("TRUE" if kind == "fine" else "FALSE")]
         cfg = ["INIT Init", "NEXT Next", "CHECK_DEADLOCK FALSE", "CONSTANTS"] + [" " + c for c in consts]
@@ -74,7 +79,7 @@ def one_model(wd, tier, seed, name):
     sc = json.load(open(scen_path(name)))
     big = name in BIG
     w = vlib.NCPU if big else max(2, min(8, vlib.NCPU // 2))
-    r, paths, notes = vlib.model_and_schedules(wd, name, mk_factory(sc, FIX_F8, FIX_F9), LABEL_RULES, seed,
+    r, paths, notes = vlib.model_and_schedules(wd, name, mk_factory(sc, FIX_F8, FIX_F9, o6=FIX_O6), LABEL_RULES, seed,
                                                cap=2000 if quick else 20000,
                                                invariant_cfg={"specdirs": ["promise", "lib"]}, graph_cfg=None,
                                                workers=w, timeout=1500, dump_graph=not big)
@@ -84,13 +89,21 @@ def one_model(wd, tier, seed, name):
         # X |= P at the fine granularity (the restated PromiseP must hold when a replacement's return is logged
         # steps after its critical section and selects are entered with several cases ready)
         d = vlib.spec_scratch(wd, name + "-fine", ["promise", "lib"])
-        mk_factory(sc, FIX_F8, FIX_F9)(d, "fine")
+        mk_factory(sc, FIX_F8, FIX_F9, o6=FIX_O6)(d, "fine")
         rn = vlib.run_tlc(d, "MC", "MC.cfg", workers=w, timeout=900)
         shutil.rmtree(d, ignore_errors=True)
         vlib.log("[model] %s (fine): %d distinct states, %d transitions generated ok=%s" % (name, rn["distinct"], rn["states"], rn["ok"]))
         r = dict(r, distinct=r["distinct"] + rn["distinct"], states=r["states"] + rn["states"])
         if not rn["ok"]:
             notes.append("model %s (fine): %s %s" % (name, rn["error"], rn["violated"]))
+        if not FIX_O6:
+            # with proposed fix 3 (re-check of the replacement channel after every inner await) the sharper `late`
+            # reading of "follows replacements" holds in the full fine interleaving (the monitor is told "coarse")
+            d = vlib.spec_scratch(wd, name + "-o6", ["promise", "lib"])
+            mk_factory(sc, FIX_F8, FIX_F9, o6=True)(d, "fine")
+            ro = vlib.run_tlc(d, "MC", "MC.cfg", workers=w, timeout=900)
+            shutil.rmtree(d, ignore_errors=True)
+            notes.append("model %s (fine) with FixO6, monitor strict: %s (%d distinct states)" % (name, "all conditions hold" if ro["ok"] else "NOT ok: %s %s" % (ro["error"], ro["violated"]), ro["distinct"]))
         # the monitor accepts the repaired implementation model (all conditions, strict quiescence)
         d = vlib.spec_scratch(wd, name + "-fixed", ["promise", "lib"])
         mk_factory(sc, True, True, strict=True)(d, "mc")
@@ -126,8 +139,12 @@ def models(wd, tier, seed):
     return states, trans, scheds, notes, names
 
 
-FAM = dict(driver="promise", specdirs=["promise", "lib"], monitor="PromisePTrace", property_of=PROPERTY_OF, models=models,
-           n_random={"quick": 3000, "thorough": 200000},
+# VERIF_PROMISE_REFINE=off: both scheduler refinements (ParkUnl, Double) off in the driver ("-opt coarse"); only meant for
+# comparing detection with and without them on a scratch copy
+_OPT = "coarse" if os.environ.get("VERIF_PROMISE_REFINE", "") == "off" else ""
+
+FAM = dict(driver="promise", specdirs=["promise", "lib"], opt=_OPT, monitor="PromisePTrace", property_of=PROPERTY_OF, models=models,
+           n_random={"quick": 6000, "thorough": 200000},
            x_specs=["promise/Promise.tla"], p_monitor="promise/PromiseP.tla",
            advisory=lambda wd, binp, seed, tier: x_conformance(wd, binp, seed, SCEN["quick"] if tier == "quick" else SCEN["thorough"],
                                                                nsched=60 if tier == "quick" else 4000, nrand=40 if tier == "quick" else 2000),
@@ -174,7 +191,8 @@ def x_conformance(wd, binp, seed, names, nsched=60, nrand=40, scheds=None):
             return res
         d = vlib.spec_scratch(wd, "x-" + name, ["promise", "lib"])
         consts = ["Proms0 <- ScProms", "Cur0 = %d" % sc["cur"], "Prog <- ScProg",
-                  "FixF8 = %s" % ("TRUE" if FIX_F8 else "FALSE"), "FixF9 = %s" % ("TRUE" if FIX_F9 else "FALSE"), "EagerWake = FALSE", "Fine = FALSE"]
+                  "FixF8 = %s" % ("TRUE" if FIX_F8 else "FALSE"), "FixF9 = %s" % ("TRUE" if FIX_F9 else "FALSE"), "FixO6 = %s" % ("TRUE" if FIX_O6 else "FALSE"),
+                  "EagerWake = FALSE", "Fine = FALSE"]
         vlib.write_mc(d, "MCX", "PromiseXTrace", ["ScProms == " + vlib.json2tla(sc["proms"]), "ScProg == " + vlib.json2tla(sc["clients"])],
                       ["INIT TInit", "NEXT TNext", "CHECK_DEADLOCK FALSE", "CONSTANTS"] + [" " + c for c in consts])
         vf = os.path.join(d, "verdict.json")
